@@ -1,8 +1,8 @@
 SPECIFICATION Spec
 CONSTANTS
   Names = {1, 2}
-  InoPool = {1, 2, 3}
-  MaxEntries = 2
+  InoPool = {1, 2, 3, 4}
+  MaxEntries = 3
   MaxOps = 2
   MaxOpsPerPoll = 1
   MaxPolls = 3
